@@ -90,8 +90,11 @@ def c16 (fn : String) (r : Req) : Option (String × String) :=
           s!"{showOutcome (Spec.convert u v ox)};{showOutcome (Spec.convert u v ox)};{chronoSpec u v ox}")
   | "c16_opt_i64" =>
     let o := intoOptI64 x
-    some (s!"{showOptInt o};{showOptInt o};{b01 (isNat x)};{showRaw (fromOptI64 o)};{showRaw (fromOptI64 o)};{b01 (!isNat x)}",
-          s!"{showOptInt ox};{showOptInt ox};{b01 ox.isNone};{showOptInt ox};{showOptInt ox};{b01 ox.isSome}")
+    -- last field: is the cast to Option<i32>, Option<u64>, Option<usize>, Option<isize>, Option<u8>,
+    -- Option<f32>, Option<f64> null? (impl_time_cast!: `if self.is_none() { None } else { Some(self.cast()) }`)
+    let nulls (b : Bool) : String := String.intercalate "" (List.replicate 7 (b01 b))
+    some (s!"{showOptInt o};{showOptInt o};{b01 (isNat x)};{showRaw (fromOptI64 o)};{showRaw (fromOptI64 o)};{b01 (!isNat x)};{nulls (isNat x)}",
+          s!"{showOptInt ox};{showOptInt ox};{b01 ox.isNone};{showOptInt ox};{showOptInt ox};{b01 ox.isSome};{nulls ox.isNone}")
   | "c16_as_cr" =>
     let c := asCr u x
     let back := match c with
